@@ -78,6 +78,14 @@ VerdictPNLaws(r) ==
     ELSE IF ~Close(r.ecross12, r.ecross21, 2 * r.tol) THEN "elastic_form_not_symmetric"
     ELSE IF r.e1 <= 0 THEN "elastic_term_of_a_nonzero_density_not_positive"
     ELSE "ok"
+\* long-range term K_lm b_l b_m ln(L) / (2 pi) along a HISTORY of cutoffs set on one object: L1, L2, L1*L2, L1^2, 1 (fixed point, r.tol per value)
+VerdictPNLong(r) ==
+    IF ~Close(r.e12, r.e1 + r.e2, 3 * r.tol) THEN "longrange_term_is_not_logarithmic_in_the_cutoff_after_changing_it"
+    ELSE IF ~Close(r.esq, 2 * r.e1, 3 * r.tol) THEN "longrange_term_is_not_logarithmic_in_the_cutoff_after_changing_it"
+    ELSE IF ~Close(r.eone, 0, r.tol) THEN "longrange_term_does_not_vanish_for_unit_cutoff"
+    ELSE IF ~Close(r.e1, r.eform, 2 * r.tol) THEN "longrange_term_is_not_its_formula"
+    ELSE IF ~Close(r.dtot, r.e12 - r.e1, 4 * r.tol) THEN "total_is_not_the_sum_of_its_terms_after_changing_the_cutoff"
+    ELSE "ok"
 VerdictPNSolve(r) ==
     IF r.after > r.before + r.tol THEN "solving_raised_the_total_energy"
     ELSE IF r.first1 # r.first0 \/ r.last1 # r.last0 THEN "end_disregistry_changed_by_the_solver"
@@ -89,5 +97,5 @@ VerdictPNWidth(r) ==        \* r.e: energies for half-widths zeta * 2^(j/4), j =
 VerdictPN(r) ==
     CASE r.ev = "gsample" -> VerdictGSample(r) [] r.ev = "gperiod" -> VerdictGPeriod(r) [] r.ev = "gconv" -> VerdictGConv(r)
       [] r.ev = "pnterms" -> VerdictPNTerms(r) [] r.ev = "pnlaws" -> VerdictPNLaws(r) [] r.ev = "pnsolve" -> VerdictPNSolve(r)
-      [] r.ev = "pnwidth" -> VerdictPNWidth(r) [] OTHER -> "unknown_event"
+      [] r.ev = "pnwidth" -> VerdictPNWidth(r) [] r.ev = "pnlong" -> VerdictPNLong(r) [] OTHER -> "unknown_event"
 ====
